@@ -5,6 +5,7 @@ import (
 	"bytes"
 	"fmt"
 	"io"
+	"verifmc/env"
 
 	"github.com/gobwas/ws"
 
@@ -88,6 +89,68 @@ func main() {
 					})
 				}
 			})
+		})
+
+		// A transport error that calls itself temporary after every number of request bytes, the
+		// connection delivering the rest afterwards. The upgrader may give up (an error, and no
+		// 101) or carry on - then the outcome is the one of the undisturbed request. It never
+		// upgrades a request it refuses undisturbed, and never answers a request it accepts
+		// undisturbed with an HTTP error of its own making.
+		r.Part("E3-transient-read-error-at-every-offset", func(t *explore.T) {
+			base := "GET /chat HTTP/1.1\r\nHost: example.com\r\nUpgrade: websocket\r\nConnection: Upgrade\r\n"
+			key := "Sec-WebSocket-Key: " + hs.CanonKey + "\r\n"
+			ver := "Sec-WebSocket-Version: 13\r\n"
+			reqs := map[string]string{
+				"compliant":                      base + key + ver + "Sec-WebSocket-Protocol: a, b\r\n\r\n",
+				"key only inside another header": base + "X-Note: " + key + ver + "\r\n",
+				"version only inside another":    base + key + "X-Note: " + ver + "\r\n",
+				"upgrade value inside another":   "GET /chat HTTP/1.1\r\nHost: example.com\r\nX-Note: Upgrade: websocket\r\nConnection: Upgrade\r\n" + key + ver + "\r\n",
+				"wrong version":                  base + key + "Sec-WebSocket-Version: 12\r\n\r\n",
+			}
+			run := func(data []byte, at int, timeout bool, bufSize int) (out []byte, err error) {
+				src := env.NewSrc(data)
+				if at >= 0 {
+					src.HiccupAt, src.HiccupErr = at, env.TempErr{IsTimeout: timeout}
+				}
+				u := ws.Upgrader{ReadBufferSize: bufSize, Protocol: func(b []byte) bool { return string(b) == "b" }}
+				out, _, err = hs.RunUpgrader(u, src)
+				return
+			}
+			for name, req := range reqs {
+				data := []byte(req)
+				for _, bufSize := range []int{0, 32} {
+					out0, err0 := run(data, -1, false, bufSize)
+					for at := 0; at <= len(data); at++ {
+						for _, timeout := range []bool{false, true} {
+							name, at, timeout, bufSize := name, at, timeout, bufSize
+							t.Do(func() string {
+								return fmt.Sprintf("request %q, read buffer %d, temporary error (timeout=%v) after %d of %d bytes", name, bufSize, timeout, at, len(data))
+							}, func() *explore.Fail {
+								out, err := run(data, at, timeout, bufSize)
+								upgraded := bytes.Contains(out, []byte(" 101 "))
+								if err0 != nil && (err == nil || upgraded) {
+									return explore.Failf("refused-request-upgraded-after-transient-error", "undisturbed: err=%v; disturbed: err=%v wrote %q", err0, err, out)
+								}
+								if err0 == nil && err == nil && !bytes.Equal(out, out0) {
+									return explore.Failf("response-differs-after-transient-error", "wrote %q, undisturbed %q", out, out0)
+								}
+								if err0 == nil && err != nil && len(out) != 0 && !upgraded {
+									return explore.Failf("accepted-request-answered-with-http-error-after-transient-error", "err=%v wrote %q", err, out)
+								}
+								if err != nil && upgraded {
+									return explore.Failf("101-written-on-failure", "err=%v wrote %q", err, out)
+								}
+								if err == nil {
+									t.Outcome("carried-on")
+								} else {
+									t.Outcome("gave-up")
+								}
+								return nil
+							})
+						}
+					}
+				}
+			}
 		})
 	})
 }
